@@ -959,6 +959,135 @@ def finish_tails(classes):
                             s.destroys.append(("%s::%s" % (k, f2), ef, el))
 
 
+# ------------------------------------------------------------------ static storage inventory
+def all_tus():
+    fs = []
+    for pat in ("muduo/base/*.cc", "muduo/net/*.cc", "muduo/net/poller/*.cc"):
+        fs += glob.glob(os.path.join(REPO, pat))
+    return sorted(os.path.relpath(f, REPO) for f in fs if not f.endswith(("_test.cc", "_unittest.cc", "boilerplate.cc")))
+
+
+def norm_static_name(dem):
+    """demangled symbol -> one token: parameter lists dropped, (anonymous namespace) -> {anon}."""
+    n = dem.replace("(anonymous namespace)", "{anon}")
+    prev = None
+    while prev != n:
+        prev = n
+        n = re.sub(r"\([^()]*\)", "", n)
+    n = re.sub(r"\s*\[clone[^\]]*\]", "", n)
+    return re.sub(r"\s+", "", n)
+
+
+def elf_inventory(tus):
+    """COMPLETE by construction: every object the compiler places in a writable data section (.data/.bss/.tdata/.tbss ...)
+    of any translation unit of muduo/base, muduo/net, muduo/net/poller - static data members, function-local statics,
+    namespace-scope and anonymous-namespace variables, __thread / thread_local variables - read from the ELF symbol tables
+    of the objects compiled from the current sources (clang++ -O0).  Constants live in .rodata / .data.rel.ro and are skipped."""
+    import tempfile, shutil
+    tmp = tempfile.mkdtemp(prefix="obj_", dir=WORK)
+    inv = {}
+    try:
+        def cc(tu):
+            o = os.path.join(tmp, tu.replace("/", "_") + ".o")
+            r = subprocess.run(["clang++", "-std=c++11", "-I" + REPO, "-O0", "-w", "-DCHECK_PTHREAD_RETURN_VALUE", "-c",
+                                os.path.join(REPO, tu), "-o", o], stdout=subprocess.PIPE, stderr=subprocess.PIPE, timeout=300)
+            return tu, o, r.returncode, r.stderr.decode("utf-8", "replace")
+        with ThreadPoolExecutor(max_workers=12) as ex:
+            objs = list(ex.map(cc, tus))
+        for (tu, o, rc, err) in objs:
+            if rc != 0:
+                MISSING.append("MISSING static inventory: %s does not compile (%s)" % (tu, err.strip()[:160]))
+                continue
+            sec = {}
+            for line in subprocess.run(["readelf", "-SW", o], stdout=subprocess.PIPE).stdout.decode().split("\n"):
+                m = re.match(r"\s*\[\s*(\d+)\]\s+(\S+)\s+\S+\s+\S+\s+\S+\s+\S+\s+\S+\s+(\S*)", line)
+                if m:
+                    sec[m.group(1)] = (m.group(2), m.group(3))
+            syms = []
+            for line in subprocess.run(["readelf", "-sW", o], stdout=subprocess.PIPE).stdout.decode().split("\n"):
+                w = line.split()
+                if len(w) >= 8 and w[3] in ("OBJECT", "TLS") and w[6].isdigit():
+                    nm, fl = sec.get(w[6], ("?", ""))
+                    if "W" not in fl or nm.startswith(".data.rel.ro"):
+                        continue
+                    syms.append((w[7], w[3] == "TLS", w[2], nm))
+            if not syms:
+                continue
+            dem = subprocess.run(["c++filt"], input="\n".join(x[0] for x in syms).encode(), stdout=subprocess.PIPE).stdout.decode().split("\n")
+            for (sym, tls, size, secname), d in zip(syms, dem):
+                d = d.strip()
+                if d.startswith(("DW.ref.", "std::", "boost::", "__", "guard variable", "vtable", "typeinfo", "VTT")):
+                    continue
+                name = norm_static_name(d)
+                e = inv.setdefault(name, {"name": name, "where": tu, "tls": tls, "size": size, "section": secname, "demangled": d,
+                                          "atomic": False, "type": "?", "accs": []})
+                e["tls"] = e["tls"] or tls
+    finally:
+        shutil.rmtree(tmp, ignore_errors=True)
+    return inv
+
+
+def static_accesses(parsed, inv):
+    """type facts and accessors of the inventory entries from the clang AST of every translation unit."""
+    short = {}
+    for name in inv:
+        short.setdefault(name.split("::")[-1], []).append(name)
+
+    for tu, (objs, _err) in sorted(parsed.items()):
+        statics = {}          # VarDecl id -> short name   (static storage only)
+
+        def decls(n, infn):
+            k = n.get("kind")
+            if k == "VarDecl" and n.get("name") in short:
+                if (not infn) or n.get("storageClass") == "static" or n.get("tls"):
+                    statics[n.get("id")] = n.get("name")
+                    for full in short[n["name"]]:
+                        t = qt(n)
+                        if inv[full]["type"] == "?":
+                            inv[full]["type"] = t
+                        inv[full]["atomic"] = inv[full]["atomic"] or bool(ATOMIC_TYPE.search(t))
+            nin = infn or k in ("FunctionDecl", "CXXMethodDecl", "CXXConstructorDecl", "CXXDestructorDecl")
+            for c in kids(n):
+                decls(c, nin)
+
+        def uses(n, fn, stack):
+            k = n.get("kind")
+            if k in ("FunctionDecl", "CXXMethodDecl", "CXXConstructorDecl", "CXXDestructorDecl"):
+                fn = n.get("name")
+            if k == "DeclRefExpr":
+                rd = n.get("referencedDecl") or {}
+                if rd.get("kind") == "VarDecl" and rd.get("id") in statics and fn:
+                    par = stack[-1] if stack else {}
+                    pk, kind = par.get("kind"), "W"
+                    if pk == "UnaryExprOrTypeTraitExpr" or (pk == "CStyleCastExpr" and par.get("castKind") == "ToVoid"):
+                        kind = None                     # sizeof x / (void) x : no access
+                    elif pk == "ImplicitCastExpr" and par.get("castKind") == "LValueToRValue":
+                        kind = "R"
+                    elif pk == "ImplicitCastExpr" and par.get("castKind") == "NoOp" and is_const_type(qt(par)):
+                        kind = "R"
+                    elif pk == "ImplicitCastExpr" and par.get("castKind") == "ArrayToPointerDecay":
+                        gp = stack[-2] if len(stack) > 1 else {}
+                        ggp = stack[-3] if len(stack) > 2 else {}
+                        if gp.get("kind") == "ArraySubscriptExpr" and not (ggp.get("kind") == "BinaryOperator" and ggp.get("opcode") == "="):
+                            kind = "R"
+                    elif is_const_type(qt(n)):
+                        kind = "R"
+                    if kind:
+                        for full in short[statics[rd["id"]]]:
+                            if (fn, kind) not in inv[full]["accs"]:
+                                inv[full]["accs"].append((fn, kind))
+            for c in kids(n):
+                uses(c, fn, stack + [n])
+
+        for o in objs:
+            decls(o, False)
+        if statics:
+            for o in objs:
+                uses(o, None, [])
+    for e in inv.values():
+        e["accs"].sort()
+
+
 def analyse_logging(objs, relfile):
     """pseudo-class: namespace-scope variables of Logging.cc + every function defined in that file."""
     path = os.path.join(REPO, relfile)
@@ -1024,7 +1153,7 @@ LOGGER_OWNER = {}
 
 # ------------------------------------------------------------------ table
 def read_table():
-    t = {"fields": {}, "methods": {}, "waive": [], "exitflags": [], "lifetime_ok": [], "loopref": {}, "lines": []}
+    t = {"fields": {}, "methods": {}, "waive": [], "exitflags": [], "lifetime_ok": [], "statics": {}, "loopref": {}, "lines": []}
     if not os.path.exists(TABLE):
         return t
     for ln, line in enumerate(open(TABLE), 1):
@@ -1040,6 +1169,8 @@ def read_table():
             t["waive"].append(tuple(w[1:5]))
         elif w[0] == "exitflag":
             t["exitflags"].append((w[1], w[2]))
+        elif w[0] == "static":
+            t["statics"][w[1]] = w[2:]
         elif w[0] == "lifetime-ok":
             t["lifetime_ok"].append((w[1], w[2], w[3]))
         else:
@@ -1184,7 +1315,36 @@ def emit_coq(classes, table, srchash):
     L.append("Definition table_lifetime_ok : list (string * string * string) :=\n  [ %s ]." %
              "; ".join("(%s, %s, %s)" % (cs(a), cs(b), cs(c)) for (a, b, c) in table["lifetime_ok"]))
     L.append("")
-    L.append("Definition table : ptable := mkTable table_fields table_methods declared_fields table_exitflags shared_classes table_lifetime_ok.")
+    sv = []
+    for name, e in sorted(STATIC_INV.items()):
+        sv.append("mkSV %s %s %s %s %s (* %s, %s bytes in %s *)" % (
+            cs(name), cs(e["where"]), str(bool(e["tls"])).lower(), str(bool(e["atomic"])).lower(),
+            clist(["(%s, %s)" % (cs(f), k) for (f, k) in e["accs"]]), e["type"].replace("*)", "* )"), e["size"], e["section"]))
+    L.append("Definition static_inventory : list staticvar :=\n  [ %s ]." % "\n  ; ".join(sv))
+    sc = []
+    for name, w in table["statics"].items():
+        k = w[0] if w else "?"
+        if k == "atomic":
+            c = "SAtomic"
+        elif k == "threadlocal":
+            c = "SThreadLocal"
+        elif k == "const-after-init":
+            c = "SConstAfterInit"
+        elif k == "init-once":
+            ws = []
+            for x in w[1:]:
+                if x.startswith("writers="):
+                    ws = [y for y in x[len("writers="):].split(",") if y]
+            c = "SInitOnce %s" % clist([cs(y) for y in ws])
+        elif k == "guarded" and len(w) > 1:
+            c = "SGuarded %s" % cs(w[1])
+        else:
+            print("MISSING table: unknown static class %s for %s" % (k, name))
+            continue
+        sc.append("(%s, %s)" % (cs(name), c))
+    L.append("Definition table_static_classes : list (string * sclass) :=\n  [ %s ]." % "\n  ; ".join(sc))
+    L.append("")
+    L.append("Definition table : ptable := mkTable table_fields table_methods declared_fields table_exitflags shared_classes static_inventory table_static_classes table_lifetime_ok.")
     L.append("")
     return "\n".join(L) + "\n"
 
@@ -1216,10 +1376,17 @@ def write_if_changed(path, text):
     return True
 
 
+STATIC_INV = {}
+
+
 def extract():
-    tus = sorted(set(tu for (_, tu) in CLASSES))
-    with ThreadPoolExecutor(max_workers=8) as ex:
+    tus = sorted(set(tu for (_, tu) in CLASSES) | set(all_tus()))
+    with ThreadPoolExecutor(max_workers=12) as ex:
         parsed = dict(zip(tus, ex.map(parse_tu, tus)))
+    inv = elf_inventory(all_tus())
+    static_accesses(dict((t, parsed[t]) for t in all_tus()), inv)
+    STATIC_INV.clear()
+    STATIC_INV.update(inv)
     classes = []
     for (cname, tu) in CLASSES:
         objs, err = parsed[tu]
@@ -1265,7 +1432,10 @@ def main():
         buf = io.StringIO()
         with contextlib.redirect_stdout(buf):
             v = emit_coq(classes, table, key)
-        summ = {"repo": REPO, "key": key, "classes": {}}
+        summ = {"repo": REPO, "key": key, "classes": {}, "statics": STATIC_INV}
+        for name in STATIC_INV:
+            if name not in table["statics"]:
+                MISSING.append("MISSING table: no protection class for static-storage variable %s (%s, %s)" % (name, STATIC_INV[name]["where"], STATIC_INV[name]["type"]))
         for (cname, fields, sums) in classes:
             summ["classes"][cname] = {
                 "fields": fields, "shared": bool(SHARED.get(cname)),
